@@ -189,7 +189,21 @@ func renderSave(s *saveRec, tb *Table, scratch string, tags map[string]bool) (st
 		}
 		ob.Reads = append(ob.Reads, id)
 	}
-	term := fmt.Sprintf("Sv %s [] [%s] %s", coqVal(ob.Now), strings.Join(dirs, ";"), coqZs(ob.Reads))
+	// a save that returned early: the operation after the last point reached failed (the model takes the
+	// failure as an input, it cannot know about read-only media or directories in the way)
+	faults := "[]"
+	switch reached {
+	case 0:
+		faults = "[true]"
+	case 1:
+		faults = "[false;false;true]"
+	case 2:
+		faults = "[false;false;false;true]"
+	}
+	if reached < 4 {
+		tags["save-returned-early"] = true
+	}
+	term := fmt.Sprintf("Sv %s %s [%s] %s", coqVal(ob.Now), faults, strings.Join(dirs, ";"), coqZs(ob.Reads))
 	return term, ob
 }
 
@@ -213,6 +227,8 @@ type dirSpec struct {
 	TmpLeft     string           `json:"tmp,omitempty"`  // a left-over temporary file (raw text)
 	Other       string           `json:"other,omitempty"`
 	MainMissing bool             `json:"main_missing,omitempty"` // the main file disappears after start-up read it
+	TmpIsDir    bool             `json:"tmp_is_dir,omitempty"`   // a directory sits where the temporary file goes: the write fails
+	BakIsDir    bool             `json:"bak_is_dir,omitempty"`   // a non-empty directory sits where the backup goes: its removal fails
 }
 
 type OpVal struct {
@@ -256,6 +272,14 @@ func prepareDir(dir string, d dirSpec) (cfg []Entry) {
 	}
 	if d.Other != "" {
 		os.WriteFile(filepath.Join(dir, "notes.txt"), []byte(d.Other), 0o664)
+	}
+	if d.TmpIsDir {
+		os.Remove(filepath.Join(dir, tmpName))
+		os.MkdirAll(filepath.Join(dir, tmpName), 0o775)
+	}
+	if d.BakIsDir {
+		os.Remove(filepath.Join(dir, bakName))
+		os.MkdirAll(filepath.Join(dir, bakName, "sub"), 0o775)
 	}
 	viper.Reset()
 	viper.SetDefault("Verbose", false)
@@ -534,10 +558,7 @@ func runHist(c Case, scratch string, tags map[string]bool) (string, interface{},
 			put(sentMsg{ev: i, tag: "SENDALL"}, 0)
 			closeBatch()
 		case "W":
-			closeBatch()
-			if broken {
-				break
-			}
+			// no sentinel here: whether a save is due must depend on the case's own updates only
 			pos := len(sentLog)
 			// a save that begins once everything sent so far has been taken by the updater; when none is
 			// expected (no save-worthy change since the last save) the wait is kept short
